@@ -6,6 +6,7 @@ import StepModel.P21SafeSteps2
 import StepModel.P21SafeOwnLemmas
 import StepModel.P21SafeDataLemmas
 import StepModel.P21SafeData2Lemmas
+import StepModel.P21SafeHeaderLemmas
 import StepModel.Generated.C05Buffers
 /-! # C05 — reading and writing Part 21 is memory-safe and terminates (the part Lean can carry)
 
@@ -604,6 +605,53 @@ theorem C05_steps_getKeyword (delims : List Byte) (s : IS) :
   obtain ⟨r, a, b, c⟩ := getKeyword_ok 0 delims (s.rest.length + 2) (by omega) s (by omega)
   have := pot_le (R := 0) s
   exact ⟨r, a, b, by omega⟩
+
+/-- `SkipInstance` makes progress: on a good stream it consumes at least one byte or leaves the stream failed (this is
+what makes the header loop and the instance loops advance past a record they cannot read) -/
+theorem C05_skipInstance_consumes (s : IS) (r : LoopRes) (hg : s.good = true)
+    (h : skipInstance C05.skipInstanceSkipsComments C05.readCommentIters (s.rest.length + 2) s = .ok r) :
+    r.s.m + 1 ≤ s.m ∨ r.s.m = 0 := by
+  have hm := IS.m_le s
+  exact skipInstance_strict _ _ _ s r (by omega) hg h
+
+/-- `STEPfile::ReadHeader` — `ReadTokenSeparator`, `FindHeaderSection` with the regenerated `getline` count and give-up
+test, and the loop over the header instances (`!` user-defined entities skipped, unknown keywords skipped with
+`SkipInstance`, `ENDSEC`, end of file).  For **every** dictionary answer `known` that does not create an entity for the empty
+keyword and every header-entity reader `rdh` that is a stage with constant `Kh` (the attribute readers behind
+`SDAI_Application_instance::STEPread` are C01/C09's models; here they are this hypothesis): it ends with fuel
+`|bytes| + 2`, never un-reads, and makes at most `(Kh + 9)·(|bytes| + 1) + readCommentIters + Kh + 9` steps. -/
+theorem C05_readHeader_partial (known : List Byte → Bool) (hk : known [] = false) (rdh : List Byte → IS → Out LoopRes)
+    (Kh : Nat) (hKh : 1 ≤ Kh) (s : IS) (hrd : ∀ kw, StageOk C05.readCommentIters (rdh kw) Kh (s.rest.length + 1)) :
+    ∃ r, readHeader known rdh C05.skipInstanceSkipsComments C05.readCommentIters C05.findHeaderGetlineN C05.findHeaderExit
+        (s.rest.length + 2) s = .ok r ∧ r.s.m ≤ s.m ∧
+      r.steps ≤ (Kh + 9) * (s.rest.length + 1) + C05.readCommentIters + Kh + 9 := by
+  have hx : C05.findHeaderExit = .notGood := by decide
+  rw [hx]
+  exact readHeader_ok known rdh Kh hKh hk _ _ _ s hrd
+
+/-- Pass 1 of `STEPfile::AppendFile` as a whole — the start keyword (`ISO-10303-21` / `STEP_WORKING_SESSION` or a prefix),
+`ReadHeader`, `FindDataSection`, `ReadData1` with the concrete `CreateInstance` skeleton — for every byte string, every
+oracle, either outcome of the header severity test, and every header-entity reader that is a stage with constant `Kh`:
+it ends with fuel `|bytes| + 2`, never un-reads, and makes at most `(Kh + 54)·(|bytes| + 1) + readCommentIters + Kh + 36`
+steps over all nesting levels. -/
+theorem C05_appendFile_pass1_partial (o : Oracle) (known : List Byte → Bool) (hk : known [] = false)
+    (rdh : List Byte → IS → Out LoopRes) (Kh : Nat) (hKh : 1 ≤ Kh) (goOn : Bool) (s : IS)
+    (hrd : ∀ kw, StageOk C05.readCommentIters (rdh kw) Kh (s.rest.length + 1)) :
+    ∃ r, appendFile1 o known rdh C05.entNmArrGuard C05.skipInstanceSkipsComments goOn C05.readCommentIters C05.findHeaderGetlineN
+        C05.findHeaderExit C05.maxErrorCount (s.rest.length + 2) s = .ok r ∧ r.s.m ≤ s.m ∧
+      r.steps ≤ (Kh + 54) * (s.rest.length + 1) + C05.readCommentIters + Kh + 36 := by
+  have hx : C05.findHeaderExit = .notGood := by decide
+  rw [hx]
+  exact appendFile1_ok o known rdh Kh hKh hk _ _ goOn _ _ _ s hrd
+
+/-- Pass 2 of `AppendFile` — `FindDataSection`, `ReadData2`, the comparison of the two instance counts, the end-of-file
+keyword — for every per-instance reader `ri` that is a stage with constant `K`: it ends with fuel `|bytes| + 2`, never
+un-reads, and makes at most `(K + 39)·(|bytes| + 1) + readCommentIters + K + 13` steps. -/
+theorem C05_appendFile_pass2_partial (ri : IS → Out LoopRes) (K : Nat) (hK : 1 ≤ K) (ws : Bool) (total : Nat) (s : IS)
+    (hri : StageOk C05.readCommentIters ri K (s.rest.length + 1)) :
+    ∃ r, appendFile2 ri C05.skipInstanceSkipsComments ws C05.readCommentIters C05.maxErrorCount total (s.rest.length + 2) s = .ok r ∧
+      r.s.m ≤ s.m ∧ r.steps ≤ (K + 39) * (s.rest.length + 1) + C05.readCommentIters + K + 13 :=
+  appendFile2_ok ri K hK _ ws _ _ total s hri
 
 /-- regenerated facts the file-level budget relies on (not modelled proofs): the comment limit and the error cut-off
 are finite constants of the size the constant `c₂` of the linear bound absorbs, and `PushPastImbedAggr` does not
